@@ -245,6 +245,29 @@ def _run(case):
                 ctx.find(f'catalog:{site}', f'SourceCatalog.{site} differs '
                          f'from its definition on the labelled, unmasked, '
                          f'finite pixels', ctx.witness(m), params=params)
+        # access order: a second instance read moments-first must agree
+        if case.get('order') and not twin:
+            with warnings.catch_warnings():
+                warnings.simplefilter('ignore')
+                catb = SourceCatalog(data, SegmentationImage(segarr.copy()),
+                                     error=err, background=bkg, mask=mask,
+                                     convolved_data=conv, progress_bar=False)
+                momb = catb.moments
+                momb = momb if np.ndim(momb) == 3 else [momb]
+                fluxb = np.atleast_1d(catb.segment_flux)
+            moma = got['moments'] if np.ndim(got['moments']) == 3 else \
+                [got['moments']]
+            conds = []
+            for k in range(len(labels)):
+                for ij in ((0, 0), (0, 1), (1, 0), (1, 1), (2, 0), (0, 2)):
+                    conds.append(same(moma[k][ij], momb[k][ij]))
+                conds.append(same(np.atleast_1d(got['segment_flux'])[k],
+                                  fluxb[k]))
+            r, m = ctx.holds(z3.And(conds), 'access-order')
+            if r == 'sat':
+                ctx.find('catalog:access-order', 'moments depend on whether '
+                         'flux-type properties were read first',
+                         ctx.witness(m), params=params)
         # renumbering labels and reversing rows changes nothing else
         if case.get('renumber') and not twin:
             with warnings.catch_warnings():
@@ -384,6 +407,9 @@ def cases(tier, seed):
         if s not in ('nested', 'wide'):
             add(s, mask=False, nan=False, negmax=0, minmax=True)
     add('touching', False, nan=False, conv=True, negmax=1)
+    add('touching', False, nan=True, conv=True, negmax=0)
+    add('gaps', False, nan=True, conv=True, negmax=0, order=True)
+    add('single-edge', True, nan=False, conv=True, negmax=0, order=True)
     add('gaps', True, nan=False, conv=True, renumber=True, negmax=0)
     add('single-edge', False, nan=True, detcat=True, negmax=0)
     add('wide', True, nan=False, detcat=True, negmax=0)
